@@ -112,38 +112,48 @@ def check_no_hand_parsing(ctx: Ctx):
     names; submitting each of them again must be recognised as finished - no second row."""
     prog = ctx.prog
     ev = agg_class(prog).lookup("evaluate")
-    # printable names only (the properties quantify over printable subject names): the characters
-    # csv.writer reacts to among them are the quote character (cell gets quoted, quotes doubled)
-    names = ["plain", 's"q', '"', 'a""b', " lead", "x,y", "q'r", "trail "]
     width = len(header_row()) - 1
-    rows0 = [header_row()] + [[nm] + ["0.5"] * width for nm in names]
-    fs = FS({"/d/out.tsv": [list(r) for r in rows0]})
-    fs.__dict__.setdefault("writer_opts", {})["/d/out.tsv"] = {"delimiter": "\t", "lineterminator": "\n"}
-    agg, out, it = new_session(prog, fs, "/d/out.tsv")
-    if agg is None:
-        if out.kind == "raise" and not out.decisions:
-            ctx.violated("R17.8", ev, out.node, "adversarial-names:continue", "an existing file with finished subjects whose names contain quotes, tabs or line breaks is continued", {"outcome": out.kind, "exc": out.exc, "names": [repr(n) for n in names]})
-        else:
-            ctx.undecided("R17.8", ev, ev.node, "adversarial-names:session", f"aggregator constructor not evaluable on an existing file: {out.kind} {out.exc}")
-        return
-    bad = {}
-    for nm in names + ["fresh"]:
-        before = len(fs.files.get("/d/out.tsv", []))
-        o, _ = evaluate_subject(prog, agg, fs, nm, lock_objs=it.root.lock_objs)
-        after = len(fs.files.get("/d/out.tsv", []))
-        if o.decisions:
-            ctx.undecided("R17.8", ev, ev.node, f"adversarial-names:{nm!r}", "session not evaluable without splitting")
-            return
-        if nm == "fresh":
-            if after != before + 1 and o.kind != "raise":
-                bad[repr(nm)] = "a subject that was never evaluated gets no row"
-        elif after != before:
-            bad[repr(nm)] = f"finished subject evaluated again: {after - before} more row(s)"
-        elif o.kind == "raise" and o.exc not in (None, "ValueError"):
-            bad[repr(nm)] = f"resubmitting a finished subject raises {o.exc}"
-    raw = fs.__dict__.get("raw_reads", [])
-    sites = sorted({(q, getattr(n, "lineno", 0)) for _, n, q in raw})
-    ctx.decide("R17.8", ev, raw[0][1] if raw else ev.node, "adversarial-names:aggregator", "finished subjects are recognised whatever characters their names contain (names quoted by csv.writer are recovered exactly when the file is read back)", not bad, {"not_recognised": bad, "line_by_line_reads": [f"{q}:{ln}" for q, ln in sites]} if bad else None)
+
+    def session(names, tag):
+        rows0 = [header_row()] + [[nm] + ["0.5"] * width for nm in names]
+        fs = FS({"/d/out.tsv": [list(r) for r in rows0]})
+        fs.__dict__.setdefault("writer_opts", {})["/d/out.tsv"] = {"delimiter": "\t", "lineterminator": "\n"}
+        agg, out, it = new_session(prog, fs, "/d/out.tsv")
+        if agg is None:
+            if out.kind == "raise" and not out.decisions:
+                return {"<constructor>": f"an existing file with such names is not continued: {out.exc}"}, fs
+            ctx.undecided("R17.8", ev, ev.node, f"adversarial-names:{tag}:session", f"aggregator constructor not evaluable on an existing file: {out.kind} {out.exc}")
+            return None, fs
+        bad = {}
+        for nm in names + ["fresh"]:
+            before = len(fs.files.get("/d/out.tsv", []))
+            o, _ = evaluate_subject(prog, agg, fs, nm, lock_objs=it.root.lock_objs)
+            after = len(fs.files.get("/d/out.tsv", []))
+            if o.decisions:
+                ctx.undecided("R17.8", ev, ev.node, f"adversarial-names:{tag}:{nm!r}", "session not evaluable without splitting")
+                return None, fs
+            if nm == "fresh":
+                if after != before + 1 and o.kind != "raise":
+                    bad[repr(nm)] = "a subject that was never evaluated gets no row"
+            elif after != before:
+                bad[repr(nm)] = f"finished subject evaluated again: {after - before} more row(s)"
+            elif o.kind == "raise" and o.exc not in (None, "ValueError"):
+                bad[repr(nm)] = f"resubmitting a finished subject raises {o.exc}"
+        return bad, fs
+
+    # the characters csv.writer reacts to: the quote character, the delimiter, line feeds (cell gets quoted,
+    # quotes doubled) - a quoted cell may hold any line break, which a reader opened with newline="" hands back as is
+    names = ["plain", 's"q', '"', 'a""b', " lead", "x,y", "q'r", "trail ", "two\nlines", "dos\r\nbreak"]
+    bad, fs = session(names, "quoted")
+    if bad is not None:
+        raw = fs.__dict__.get("raw_reads", [])
+        sites = sorted({(q, getattr(n, "lineno", 0)) for _, n, q in raw})
+        ctx.decide("R17.8", ev, raw[0][1] if raw else ev.node, "adversarial-names:aggregator", "finished subjects are recognised whatever characters their names contain (names quoted by csv.writer are recovered exactly when the file is read back)", not bad, {"not_recognised": bad, "line_by_line_reads": [f"{q}:{ln}" for q, ln in sites]} if bad else None)
+    # a carriage return without a line feed: csv.writer quotes only the characters of its lineterminator
+    # (before Python 3.13), the reader ends a row at any bare carriage return
+    bad, fs = session(["mac\rbreak"], "lone-carriage-return")
+    if bad is not None:
+        ctx.decide("R17.8", ev, ev.node, "adversarial-names:lone-carriage-return", "a finished subject whose name contains a carriage return without a line feed is recognised (on this interpreter's csv module)", not bad, {"not_recognised": bad} if bad else None)
 
 
 def check_header_rejection(ctx: Ctx):
